@@ -12,6 +12,7 @@ CONSTANTS MaxPending,  \* max unsynchronised operations per replica
           MaxSyncs,    \* total budget of sync calls
           MaxLen,      \* schedule length at which a simulated behaviour is emitted
           Urg,         \* urgencies the server may answer (subset of Urgencies)
+          WithTrim,    \* TRUE: the server may discard versions covered by its snapshot
           EditKinds,   \* kinds of operations local edits may use (subset of {"C","D","U","P"})
           Emit         \* TRUE: print one REPLAY line per finished behaviour
 
@@ -66,9 +67,14 @@ MCLost(r) ==
   /\ (PushLostReply(r) \/ SnapLostReply(r))
   /\ h' = Append(h, Ev("LostReply", r)) /\ UNCHANGED <<edits, syncs>>
 
+MCTrim ==
+  /\ WithTrim
+  /\ \E n \in 1..Len(chain) : ServerTrim(n) /\ h' = Append(h, [Ev("Trim", "-") EXCEPT !.urg = ToString(n)])
+  /\ UNCHANGED <<edits, syncs>>
+
 MCInit == Init /\ edits = 0 /\ syncs = 0 /\ h = <<>>
 
-MCNext == \E r \in Replicas :
+MCNext == MCTrim \/ \E r \in Replicas :
   MCEdit(r) \/ MCStart(r) \/ MCStep(r) \/ MCPush(r) \/ MCAbort(r) \/ MCLost(r)
 
 -----------------------------------------------------------------------------
